@@ -14,6 +14,9 @@ JUDGE RangeSliceTrace: verdict = returned ranges equal ONE unsliced evaluation o
 import json
 import os
 import random
+import re
+import shutil
+import subprocess
 
 import vlib
 from vlib import prints, write_ndjson, read_ndjson, MachineryError, NCPU, log
@@ -33,6 +36,8 @@ CONSTANTS
   RunLens = {%(runlens)s}
   Deltas = {%(deltas)s}
   Mirror = %(mirror)s
+  StepGuard = %(guard)s
+  Skews = {%(skews)s}
 %(inv)s
 %(view)s
 CHECK_DEADLOCK FALSE
@@ -48,33 +53,45 @@ def tlc_workers():
 
 
 HEAP = os.environ.get("VERIF_TLC_HEAP") or "8g"
+GUARD = {"on": False}     # RangeQuery keeps the slice size >= step (probed on the real code by probe_bigstep)
+STEPS_BIG = [18000, 21600]                                       # 5h 6h: only with the guard
 
 
 def cfg(mirror, **kw):
     d = dict(spec="Spec", steps=STEPS_MC, ns=1, celldiv=1, maxwin=18000, maxslices=4, maxcells=10, startmode="few",
-             quantum="step", order="all", presmode="subset", runlens=[1], deltas=[], inv=INV, view="VIEW MCView")
+             quantum="step", order="all", presmode="subset", runlens=[1], deltas=[], skews=[0], inv=INV, view="VIEW MCView")
     d.update(kw)
     d["steps"] = ", ".join(str(s) for s in d["steps"])
     d["deltas"] = ", ".join(str(s) for s in d["deltas"])
     d["runlens"] = ", ".join(str(s) for s in d["runlens"])
+    d["skews"] = ", ".join(str(s) for s in d["skews"])
+    d["guard"] = "TRUE" if GUARD["on"] else "FALSE"
     d["mirror"] = "TRUE" if mirror else "FALSE"
     d["inv"] = ("INVARIANTS " + d["inv"]) if d["inv"] else ""
     return CFG % d
 
 
+def bigstep_cfg(mirror, **kw):
+    """steps above 4h (one evaluation point per slice); only meaningful when the tree has the slice-size guard"""
+    return cfg(mirror, steps=STEPS_BIG, maxwin=86400, maxslices=4, maxcells=5, quantum="slice", skews=[0, 1], **kw)
+
+
 def mc_configs(thorough, mirror):
+    big = [("bigstep", bigstep_cfg(mirror))] if GUARD["on"] else []
     if thorough:
-        return [
+        return big + [
             ("orders", cfg(mirror, maxwin=21600, maxslices=5, maxcells=10)),
-            ("align", cfg(mirror, maxwin=18000, maxslices=4, maxcells=9, startmode="lattice", quantum="half", order="fwdrev")),
+            ("align", cfg(mirror, maxwin=18000, maxslices=4, maxcells=9, startmode="lattice", quantum="half", order="fwdrev",
+                          skews=[0, 1])),
             ("two", cfg(mirror, steps=[3000, 3600, 6000, 7200], ns=2, maxwin=14400, maxslices=4, maxcells=5)),
             ("halfcell", cfg(mirror, steps=[3000, 3600, 7200], celldiv=2, maxwin=10800, maxslices=3, maxcells=10,
                              startmode="lattice", quantum="half", order="fwdrev")),
             ("session", cfg(mirror, steps=[2400, 3000, 3600, 7200], maxwin=10800, maxslices=4, maxcells=8, deltas=[0, 2, 3, 4, 6])),
         ]
-    return [
+    return big + [
         ("orders", cfg(mirror, maxwin=18000, maxslices=4, maxcells=9)),
-        ("align", cfg(mirror, maxwin=14400, maxslices=4, maxcells=8, startmode="lattice", quantum="half", order="fwdrev")),
+        ("align", cfg(mirror, maxwin=14400, maxslices=4, maxcells=7, startmode="lattice", quantum="half", order="fwdrev",
+                      skews=[0, 1])),
         ("two", cfg(mirror, steps=[3600, 6000], ns=2, maxwin=10800, maxslices=3, maxcells=5)),
         ("session", cfg(mirror, steps=[2400, 3000], maxwin=10800, maxslices=3, maxcells=7, deltas=[0, 2, 3, 4])),
     ]
@@ -83,7 +100,9 @@ def mc_configs(thorough, mirror):
 def sig_of(c):
     """normalised abstract case: the whole session up to the violating query"""
     pres = ";".join(",".join(str(x) for x in sorted(p)) for p in c["pres"])
-    qs = "|".join("%s-%s/%s" % (q["start"], q["end"], ",".join(str(k) for k in q["order"])) for q in c["queries"])
+    qs = "|".join("%s-%s%s/%s" % (q["start"], q["end"],
+                                  ("~%d" % (q["end"] - q["start"] - q["dur"])) if q.get("dur", q["end"] - q["start"]) != q["end"] - q["start"] else "",
+                                  ",".join(str(k) for k in q["order"])) for q in c["queries"])
     return "C13:step=%s:unit=%s:pres=%s:queries=%s" % (c["step"], c["unit"], pres, qs)
 
 
@@ -99,6 +118,31 @@ def nontrivial(c):
     return False
 
 
+def build_harness(ctx):
+    """Build vh with the extra tag h3 when the tree carries hook H3 (internal/promapi/hooks_verif.go): exec-c13 then
+    enforces arrival orders exactly at the client's "got" gate. Without the hook the plain build is used (best effort)."""
+    if not os.path.exists(os.path.join(ctx.repo, "internal", "promapi", "hooks_verif.go")):
+        ctx.build_vh()
+        return False
+    src = ctx.mkdir("harness-src")
+    if not os.path.exists(os.path.join(src, "go.mod")):
+        shutil.rmtree(src)
+        shutil.copytree(vlib.HARNESS_DIR, src, ignore=shutil.ignore_patterns("bin", "*.test"))
+        with open(os.path.join(src, "go.mod")) as f:
+            gm = f.read()
+        gm = re.sub(r"(replace github.com/cloudflare/pint => ).*", r"\1" + ctx.repo, gm)
+        with open(os.path.join(src, "go.mod"), "w") as f:
+            f.write(gm)
+        shutil.copy(os.path.join(ctx.repo, "go.sum"), os.path.join(src, "go.sum"))
+    out = ctx.path("bin", "vh")
+    r = subprocess.run(["go", "build", "-tags", "verif h3", "-o", out, "./cmd/vh"], cwd=src, env=vlib.go_env(),
+                       capture_output=True, text=True)
+    if r.returncode != 0:
+        raise MachineryError("harness build (tags verif h3) failed:\n" + r.stdout + r.stderr)
+    ctx._vh[False] = out          # ctx.vh() picks the binary up from the build cache of the context
+    return True
+
+
 def probe_mirror(ctx):
     """ask the real promapi.Overlaps which variant of the model applies to this tree"""
     p = ctx.path("c13_probe_in.ndjson")
@@ -108,7 +152,24 @@ def probe_mirror(ctx):
     recs = [r for r in read_ndjson(t) if r["ev"] == "Probe"]
     if not recs:
         raise MachineryError("exec-c13 wrote no Probe record")
-    return bool(recs[0]["mirror"])
+    return bool(recs[0]["mirror"]), bool(recs[0].get("gate"))
+
+
+def probe_bigstep(ctx):
+    """Does the real RangeQuery return for a step above 4h (slice-size guard present)? Without the guard it loops
+    forever and eats memory, so the probe runs in a child process under an address-space limit and a timeout."""
+    import resource
+    exe = ctx.build_vh()
+    outp = ctx.path("c13_bigstep.ndjson")
+
+    def limit():
+        resource.setrlimit(resource.RLIMIT_AS, (3 << 30, 3 << 30))
+    try:
+        r = subprocess.run([exe, "probe-c13-bigstep", "-out", outp], env=vlib.go_env(), cwd=ctx.scratch, preexec_fn=limit,
+                           stdout=subprocess.DEVNULL, stderr=subprocess.DEVNULL, timeout=60)
+    except subprocess.TimeoutExpired:
+        return False
+    return r.returncode == 0 and os.path.exists(outp) and any(x.get("returned") for x in read_ndjson(outp))
 
 
 def generate(ctx, mirror):
@@ -140,7 +201,7 @@ def generate(ctx, mirror):
         "c13_gen_sess.cfg": cfg(mirror, steps=[2400, 3000, 3600] if thorough else [2400, 3000],
                                 maxwin=10800, maxslices=3, maxcells=7,
                                 quantum="slice", order="all" if thorough else "fwdrev",
-                                deltas=[0, 2, 3, 4, 6] if thorough else [0, 2, 3, 4], inv="EmitCase", view="")})
+                                deltas=[0, 2, 3, 4, 6] if thorough else [0, 2, 3, 4], skews=[0, 1], inv="EmitCase", view="")})
     all_sess = [v[0] for v in prints(bfs2, "CASE") if len(v[0]["queries"]) > 1]
     add(sample(all_sess, 30000 if thorough else 3000))
     # BFS: two series, one sample per slice, every arrival order (the merge fix-point runs per series)
@@ -149,18 +210,26 @@ def generate(ctx, mirror):
                                quantum="slice", inv="EmitCase", view="")})
     all_two = [v[0] for v in prints(bfs3, "CASE")]
     add(sample(all_two, 20000 if thorough else 1200))
+    n_big = 0
+    if GUARD["on"]:
+        bfs4 = ctx.tlc("RangeSlice", "c13_gen_big.cfg", tag="gen-bigstep", timeout=3000, workers=w, heap=HEAP, files={
+            "c13_gen_big.cfg": bigstep_cfg(mirror, inv="EmitCase", view="")})
+        all_big = [v[0] for v in prints(bfs4, "CASE")]
+        n_big = len(all_big)
+        add(sample(all_big, 10000 if thorough else 600))
     # simulation: wide vocabulary
     per_worker = max(1, (20000 if thorough else 1600) // w)
     sim = ctx.tlc("RangeSlice", "c13_gen_sim.cfg", tag="gen-sim", timeout=3000, simulate=per_worker, depth=400,
                   workers=w, heap=HEAP, files={
-                      "c13_gen_sim.cfg": cfg(mirror, steps=STEPS_SIM, ns=2, celldiv=2, maxwin=28800, maxslices=7,
+                      "c13_gen_sim.cfg": cfg(mirror, steps=STEPS_SIM + (STEPS_BIG if GUARD["on"] else []), ns=2, celldiv=2, maxwin=28800, maxslices=7,
                                              maxcells=100000, startmode="lattice", quantum="step", presmode="runs",
-                                             runlens=[1, 2, 3, 5, 8, 13, 21, 34, 55], deltas=[0, 2, 3, 5, 8, 13], inv="EmitCase", view="")})
+                                             runlens=[1, 2, 3, 5, 8, 13, 21, 34, 55], deltas=[0, 2, 3, 5, 8, 13], skews=[0, 1, 2],
+                                             inv="EmitCase", view="")})
     sim_cases = [v[0] for v in prints(sim, "CASE")]
     sim_cases.sort(key=lambda c: json.dumps(c, sort_keys=True))
     add(sim_cases)
     return cases, dict(gen_bfs_total=len(all_bfs), gen_session_total=len(all_sess), gen_two_series_total=len(all_two),
-                       gen_sim_total=len(sim_cases))
+                       gen_sim_total=len(sim_cases), gen_bigstep_total=n_big)
 
 
 def judge(ctx, trace, mirror, chunk_cases=10000):
@@ -188,14 +257,25 @@ def judge(ctx, trace, mirror, chunk_cases=10000):
                 (j["distinct"] or 2) - 2, len(ch), i))
         viols += prints(j, "VIOL")
         drifts += prints(j, "DRIFT")
+        tr = prints(j, "TRUTH")
+        if tr:
+            raise MachineryError("an environment assumption of RangeSlice (E3 Go time rounding / E4 server evaluation grid) does "
+                                 "not hold for the real thing: %s" % json.dumps(tr[0])[:400])
     return viols, drifts
 
 
 def run(ctx, cases_override=None):
     thorough = ctx.thorough
     w = tlc_workers()
-    mirror = probe_mirror(ctx)
-    log("[c13] real promapi.Overlaps has the mirror cases: %s" % mirror)
+    hooked = build_harness(ctx)
+    mirror, gate = probe_mirror(ctx)
+    if os.environ.get("C13_NO_GATE"):
+        hooked = False            # development switch: exercise the fallback on a tree that has the hook
+    if hooked != gate:
+        raise MachineryError("hook H3 present=%s but exec-c13 reports gate=%s" % (hooked, gate))
+    GUARD["on"] = probe_bigstep(ctx)
+    log("[c13] real promapi.Overlaps has the mirror cases: %s; arrival orders enforced through hook H3: %s; "
+        "slice size >= step guard: %s" % (mirror, gate, GUARD["on"]))
     # ---- MC
     mcs, leads = [], []
     if cases_override is None:
@@ -214,7 +294,7 @@ def run(ctx, cases_override=None):
     # ---- EXEC
     tpath = ctx.path("c13_trace_all.ndjson")
     ctx.vh("exec-c13", cpath, tpath, timeout=3000)
-    trace = [r for r in read_ndjson(tpath) if r["ev"] != "Probe"]
+    trace = [r for r in read_ndjson(tpath) if r["ev"] != "Probe"]      # EnvProbe stays: JUDGE checks E3 / E4 on it
     # ---- JUDGE
     jv, jd = judge(ctx, trace, mirror)
     viols = []
@@ -258,6 +338,8 @@ def run(ctx, cases_override=None):
         "exhaustive": False,
         "mc_exhaustive_in_bounds": True,
         "model_variant_mirror_cases": mirror,
+        "arrival_order_exact_via_hook_h3": gate,
+        "slice_size_guard_present": GUARD["on"],
         "queries_multi_slice": multi,
         "sessions_with_followup": sess,
         "queries_with_cache_hits": hits,
@@ -274,11 +356,17 @@ def run(ctx, cases_override=None):
         "UnslicedOf / GapIffAbsent over the recorded window); every recorded step is also validated against the model (binding)",
         "server = harness/promfake presence model: a series has a sample at evaluation time t iff t's cell is present; "
         "time is whole seconds; base instant aligned to the slice size; server data does not change during a session",
-        "arrival order is enforced by holding responses; between releases the harness waits for the client's in-flight gauge "
-        "to drop (best effort; cache hits cannot be held) - the verdict never depends on the order actually reached",
+        ("arrival order is exact: every slice result, cache hits included, waits at the client's \"got\" gate (hook H3, tag verif) "
+         "and is let through in the order of the TLC behaviour" if gate else
+         "no hook H3 in this tree: arrival order is enforced by holding responses at the server (best effort; cache hits cannot "
+         "be held) - the verdict never depends on the order actually reached"),
         "follow-up queries are >= 1 step later than the first (the cache key of the moving last slice rounds its end to the step: "
         "reuse within half a step is staleness by design, on which C13 is silent)",
-        "steps > 4h make the slice size 0 and are outside the vocabulary (RangeQuery does not terminate there; reported separately)",
+        ("steps above 4h (5h, 6h) are in the vocabulary: the tree keeps the slice size >= step" if GUARD["on"] else
+         "steps > 4h make the slice size 0 and are outside the vocabulary (RangeQuery does not terminate there; "
+         "fixes/C13-slice-size-at-least-step.patch)"),
+        "RangeQueryTimes: Dur() = End() - Start() - skew with skew in {0,1,2} s (absolute and now-based windows); Go's "
+        "Time.Round / Duration.Round and the engine's evaluation grid are probed in every run and checked by JUDGE (E3, E4)",
     ], drift=drift)
 
 
